@@ -52,6 +52,8 @@ def _cases(tier, seed):
             batch = [0, 0, 1, 2, max(n - 1, 1), max(n - 2, 1)][(j // 2) % 6]
             c = gt.make_case(rng, t, param, None, batch)
             c["move"] = ["none", "none", "float32", "float64", "cpu"][(j // 3) % 5]
+            if j % 41 == 7 and batch == 0:
+                c["postorder_option"] = True
             if c["move"] != "none" and param == "shift" and (j // 15) % 2 == 0:
                 c["smooth_k"] = float(np.round(rng.uniform(2.0, 60.0), 3))
             out.append(c)
@@ -129,6 +131,23 @@ def _run_case(case):
     tag = case["param"]
     if case["dates_mode"] != "iso":
         C["heterochronous"] += 1
+    if case.get("postorder_option"):
+        # the tree models accept `use_postorder_indices`: whatever numbering of the leaves it selects, every tip still has to sit at the
+        # sampling time of *its* taxon (taxon of a leaf taken from the library's own tree object, date from the specification by name)
+        tj = gt.tree_json(case)
+        tj["use_postorder_indices"] = True
+        objs, dic = tt.load([phylo.taxa_json(case), tj])
+        tree = dic["tree"]
+        nh = tt.as_np(tree.node_heights, "C06:not-a-tensor:" + tag, "node_heights").astype(float)
+        want = dict(zip(case["names"], phylo.tip_heights(case)))
+        C["validity_checks"] += 1
+        C["postorder_option_checks"] = 1
+        for nd in tree.tree.leaf_node_iter():
+            got = nh.reshape(-1, nh.shape[-1])[0][nd.index]
+            if abs(got - want[nd.taxon.label]) > 1e-12 * max(1.0, abs(want[nd.taxon.label])):
+                V.append(tt.viol("C06:tip-not-at-sampling-time:use_postorder_indices", "with use_postorder_indices the tip %s (node index %d) sits at height %.9g, its sampling time is %.9g" % (nd.taxon.label, nd.index, got, want[nd.taxon.label]), case=case))
+                break
+        return {"violations": V, "counters": C, "fingerprint": None, "sample": None}
     objs, dic = tt.load([phylo.taxa_json(case), gt.tree_json(case)])
     tree = dic["tree"]
     kind0 = type(tree.transform).__name__
